@@ -24,27 +24,6 @@ is forced by the real-time order of the log:
 namespace UtilModel.Broadcast
 open UtilModel
 
-/-- does a `broadcast()` follow the `k`-th `getWaitCh()` of the body? -/
-def laterBcast : Prog → Nat → Bool
-  | [], _ => false
-  | .get :: r, 0 => r.contains .bcast
-  | .get :: r, k+1 => laterBcast r k
-  | .bcast :: r, k => laterBcast r k
-  | .set _ :: r, k => laterBcast r k
-
-def numGets : Prog → Nat
-  | [] => 0
-  | .get :: r => numGets r + 1
-  | _ :: r => numGets r
-
-/-- the value `x` has after the body, if the body assigns it -/
-def lastSet : Prog → Option Nat
-  | [] => none
-  | .set v :: r => match lastSet r with
-    | some w => some w
-    | none => some v
-  | _ :: r => lastSet r
-
 /-! ## clause 1: handle generations -/
 
 structure HCall where
